@@ -200,3 +200,47 @@ def strip_not(e: ast.expr) -> Tuple[ast.expr, bool]:
 def docstring(f) -> str:
     node = f.node if hasattr(f, "node") else f
     return ast.get_docstring(node) or ""
+
+
+def eval_under_flag(e, flag: str, val: bool, rd=None, depth: int = 0):
+    """Integer value of an axis expression when the boolean formal `flag` is `val` (None: not decidable).
+    Understands constants, `a if flag else b`, `int(flag)`, `not flag`, +/- and single reaching assignments."""
+    import ast as _a
+    if depth > 12 or e is None:
+        return None
+    if isinstance(e, _a.Constant) and isinstance(e.value, (int, bool)):
+        return int(e.value)
+    if isinstance(e, _a.Name):
+        if e.id == flag:
+            if rd is None or all(d.kind == "param" for d in rd.defs_of(e)):
+                return int(val)
+        if rd is not None:
+            ds = list(rd.defs_of(e))
+            vals = set()
+            for d in ds:
+                if d.kind != "assign" or d.value is None:
+                    return None
+                # a definition guarded by the flag itself only counts on its side
+                vals.add(eval_under_flag(d.value, flag, val, rd, depth + 1))
+            if len(vals) == 1:
+                return vals.pop()
+        return None
+    if isinstance(e, _a.UnaryOp) and isinstance(e.op, _a.Not):
+        v = eval_under_flag(e.operand, flag, val, rd, depth + 1)
+        return None if v is None else int(not v)
+    if isinstance(e, _a.UnaryOp) and isinstance(e.op, _a.USub):
+        v = eval_under_flag(e.operand, flag, val, rd, depth + 1)
+        return None if v is None else -v
+    if isinstance(e, _a.IfExp):
+        t = eval_under_flag(e.test, flag, val, rd, depth + 1)
+        if t is None:
+            return None
+        return eval_under_flag(e.body if t else e.orelse, flag, val, rd, depth + 1)
+    if isinstance(e, _a.Call) and call_name(e) in ("int", "bool") and len(e.args) == 1:
+        return eval_under_flag(e.args[0], flag, val, rd, depth + 1)
+    if isinstance(e, _a.BinOp) and isinstance(e.op, (_a.Add, _a.Sub)):
+        a, b = eval_under_flag(e.left, flag, val, rd, depth + 1), eval_under_flag(e.right, flag, val, rd, depth + 1)
+        if a is None or b is None:
+            return None
+        return a + b if isinstance(e.op, _a.Add) else a - b
+    return None
